@@ -47,6 +47,17 @@ pub enum Ev {
     /// from fake peer 0, 2 = RESET aimed at the newest connection's id from the wrong address,
     /// 3 = FIN with the newest connection's receive id from its real peer address + 1000 sequence offset
     Stray { to: u8, kind: u8 },
+    /// wait (at most 6 s) for the next connection object to die and, in that very instant, deliver to
+    /// socket `to` a DATA packet for the dead connection's receive key and a fresh SYN from the same
+    /// fake peer with the same id (a peer that reconnects at once): the dead connection's queued
+    /// clean-up request then races with the new connection for the same table key
+    ReuseKeyAtDeath { to: u8, fake: u8 },
+    /// the same two datagrams, sent so that they arrive at the absolute virtual time `at_us` (taken from a
+    /// first run: the instant the connection object dies), i.e. they may already be queued at the socket
+    /// when the clean-up request is
+    ReuseKeyAt { to: u8, fake: u8, at_us: u64 },
+    /// record (live connection objects, connection-table entries) of socket `to`
+    ProbeTable { to: u8 },
 }
 
 #[derive(Clone, Debug, Serialize, Deserialize, PartialEq)]
@@ -112,6 +123,10 @@ pub struct SockLog {
     /// per still-open stream: did the bytes read so far match the connector's coded stream
     pub streams_open_at_end: usize,
     pub event_times: Vec<u64>,
+    /// (time, live connection objects on this runtime, entries in the probed socket's table)
+    pub table_probes: Vec<(u64, usize, usize)>,
+    /// ReuseKeyAtDeath: did a connection object die within the wait
+    pub reuse_hit: Vec<bool>,
 }
 
 struct Shared {
@@ -189,6 +204,8 @@ async fn run_async(script: &SockScript) -> SockLog {
     let mut connect_tasks: Vec<Option<tokio::task::JoinHandle<()>>> = vec![];
     let mut accept_futs: Vec<Option<AcceptFut>> = vec![];
     let mut event_times = vec![];
+    let mut table_probes: Vec<(u64, usize, usize)> = vec![];
+    let mut reuse_hit: Vec<bool> = vec![];
     let mut task_panic: Option<String> = None;
 
     for (ev, same_instant) in &script.events {
@@ -345,6 +362,43 @@ async fn run_async(script: &SockScript) -> SockLog {
             }
             Ev::Settle => pause(Duration::from_millis(50), &mut accept_futs).await,
             Ev::Wait(ms) => pause(Duration::from_millis(*ms), &mut accept_futs).await,
+            Ev::ReuseKeyAtDeath { to, fake } => {
+                let dropped0 = librqbit_utp::verif::vsock_totals().1;
+                let mut hit = false;
+                'wait: for _ in 0..6000 {
+                    pause(Duration::from_millis(1), &mut accept_futs).await;
+                    // the connection's timer may fire after ours in the same instant: give it its turn
+                    for _ in 0..3 {
+                        if librqbit_utp::verif::vsock_totals().1 > dropped0 {
+                            hit = true;
+                            break 'wait;
+                        }
+                        tokio::task::yield_now().await;
+                    }
+                }
+                reuse_hit.push(hit);
+                if hit {
+                    let id = fake_conn_id(*fake);
+                    net.inject_with_latency(fake_addr(*fake), sock_addr(*to), raw_header(0, id.wrapping_add(1), fake_isn(*fake).wrapping_add(1), 0, 1 << 20, b"late"), false);
+                    net.inject_with_latency(fake_addr(*fake), sock_addr(*to), raw_header(4, id, fake_isn(*fake).wrapping_add(100), 0, 0, &[]), false);
+                }
+            }
+            Ev::ReuseKeyAt { to, fake, at_us } => {
+                let lat = script.latency_us;
+                let now_us = net.now_us();
+                if *at_us > now_us + lat {
+                    pause(Duration::from_micros(*at_us - lat - now_us), &mut accept_futs).await;
+                }
+                let id = fake_conn_id(*fake);
+                net.inject_with_latency(fake_addr(*fake), sock_addr(*to), raw_header(0, id.wrapping_add(1), fake_isn(*fake).wrapping_add(1), 0, 1 << 20, b"late"), true);
+                net.inject_with_latency(fake_addr(*fake), sock_addr(*to), raw_header(4, id, fake_isn(*fake).wrapping_add(100), 0, 0, &[]), true);
+                reuse_hit.push(true);
+            }
+            Ev::ProbeTable { to } => {
+                let live = librqbit_utp::verif::live_vsocks().len();
+                let streams = librqbit_utp::verif::gauge(sock_addr(*to)).map(|g| g.streams).unwrap_or(0);
+                table_probes.push((net.now_us(), live, streams));
+            }
             Ev::Stray { to, kind } => {
                 let log = net.snapshot_log();
                 // the newest established connection towards `to` (its SYN-ACK on the wire tells the ids)
@@ -411,6 +465,8 @@ async fn run_async(script: &SockScript) -> SockLog {
     let mut out = SockLog::default();
     out.end_us = net.now_us();
     out.event_times = event_times;
+    out.table_probes = table_probes;
+    out.reuse_hit = reuse_hit;
     {
         let g = shared.lock();
         out.connects = g.connects.clone();
